@@ -5,7 +5,11 @@ and wrong passwords, restore from the exported MDK, regenerate); after EVERY ope
 sorted ListKeys are compared.  Addresses are symbolic (d<k> = derived by the harness itself at index k, x<j> = unrelated).
 Monitor (implementation alone): no address listed twice; a wrong password never succeeds and never changes name/ListKeys;
 generated indices strictly increase, skip only addresses that were imported and are present; ImportKey never replaces a
-listed address; the restored wallet regenerates every address the original generated (skipping only its own imports)."""
+listed address; the restored wallet regenerates every address the original generated (skipping only its own imports).
+Concurrency (kmd serves its wallets from one process, one sqlite file each, no common lock): `probe` lines call the real
+extractKeyWithIndex from 2-8 goroutines at once and compare every result with the harness's own derivation (the model's
+derive is a pure function); `conc` lines let K wallets of one driver generate N keys each in parallel, then key #i must be
+derive(MDK,i) and the sequentially restored wallet must return the same sequence; a short run of both under `go test -race`."""
 import os
 import common
 
@@ -18,8 +22,35 @@ def _idx(sym):
     return None
 
 
+def monitor_concurrent(f, res):
+    """probe / conc lines: the derivation is a pure function of (MDK, index) and key #i of a wallet without imports is
+    derive(MDK, i), whatever other wallets of the same process are doing; the restored wallet returns the same sequence."""
+    if res.startswith("bad-op"):
+        return None
+    if "PANIC" in res:
+        return "panic during concurrent wallet use: " + res[:200]
+    if f[0] == "probe":
+        if res != "pure":
+            return ("extractKeyWithIndex is not a pure function of (MDK, index) when called from %s goroutines at once: %s "
+                    "(MDK id:index -> what came back)") % (f[1], res[:160])
+        return None
+    n = f[3]
+    for i, tok in enumerate(res.split()):
+        g, _, r = tok.partition("/")
+        if g != "seq:" + n:
+            return ("wallet %d of %s wallets generating concurrently: key sequence is not derive(MDK,1..%s): %s "
+                    "(bad@<position>:<address actually stored there>)") % (i + 1, f[2], n, g)
+        if r != "same":
+            return "wallet %d restored from its exported MDK does not regenerate the same addresses: %s" % (i + 1, r)
+    if len(res.split()) != int(f[2]):
+        return "malformed harness result for %s" % " ".join(f)
+    return None
+
+
 def monitor(op, res):
     f, r = op.split(), res.split()
+    if len(f) >= 4 and f[0] in ("probe", "conc"):
+        return monitor_concurrent(f, res)
     if len(f) < 2 or f[0] != "case":
         return None
     toks = f[1:]
@@ -108,13 +139,44 @@ def monitor(op, res):
 
 
 def trivial(op):
+    if op.startswith("probe ") or op.startswith("conc "):
+        return False
     return " gen" not in op
 
 
 def kind_of(op):
     f = op.split()
+    if f and f[0] in ("probe", "conc"):
+        return f[0] + "-" + f[{"probe": 1, "conc": 2}[f[0]]] + "-goroutines"
     n = len(f) - 1
     return ("restore" if " restore:" in op else "single") + "-len-" + ("<10" if n < 10 else "<25" if n < 25 else "<50" if n < 50 else ">=50")
+
+
+def race_pass(ctx, env):
+    """A short concurrent run (derivation probe, 4 wallets generating at once, one sequential history) under the Go race
+    detector: unsynchronised sharing between wallets is reported deterministically, without the interleaving having to
+    happen.  The race runtime is part of the toolchain in the module cache (works offline); if the instrumented build is
+    not possible the pass is recorded as not run (the un-instrumented concurrent phase below still runs)."""
+    e = dict(env)
+    rc, out = ctx.go_test("./daemon/kmd/wallet/driver", "TestVerifC46Race", env=e, timeout=1700, extra_args=["-race"])
+    d = ctx.cov["distribution"]
+    if "WARNING: DATA RACE" in out:
+        d["race-detector"] = "DATA RACE"
+        frames = [l.strip() for l in out.splitlines() if "/daemon/kmd/" in l and "zz_verif" not in l][:6]
+        ctx.violation("go test -race: data race between wallets of one process (keys of different wallets / indices are derived through shared memory): "
+                      + "; ".join(dict.fromkeys(frames)),
+                      {"kind": "race", "ops": ["probe 4 50 1:5 2:17 3:123 4:7 1:42 2:9 3:1000 4:88", "conc 1 4 25"],
+                       "report": out[:6000], "harness": {"pkg": "./daemon/kmd/wallet/driver", "test": "TestVerifC46Race", "args": ["-race"]}},
+                      found_input=True)
+    elif rc == 0:
+        d["race-detector"] = "clean"
+        ctx.trusted.append("Go race detector (go test -race) on the concurrent wallet run")
+    elif any(t in out for t in ("-race requires", "-race is only supported", "race_linux_amd64.syso", "runtime/race: ")):
+        d["race-detector"] = "unavailable"
+        ctx.notes.append("go test -race not available here: " + out.strip()[-300:])
+    else:
+        d["race-detector"] = "failed"
+        ctx.tie_failures.append("race pass (go test -race TestVerifC46Race) failed to run (rc=%d): %s" % (rc, out[-600:]))
 
 
 def run(ctx, replay_ops=None):
@@ -126,7 +188,7 @@ def run(ctx, replay_ops=None):
         "fastHashWithSalt (CheckPassword on an unlocked handle) is collision free; a nil master key fails with errDeriveKey",
         "SQLite executes each statement / the GenerateKey transaction atomically, so the observable states (also after a crash) are the states between operations; "
         "the crash itself is not injected, only the handle loss (FetchWallet) is",
-        "one process per wallet directory; concurrency between handles is not modelled (the code relies on _txlock=exclusive)",
+        "wallets of one process are independent in the model (no shared state); this is exercised (concurrent derivation probe, concurrent GenerateKey on several wallets, go test -race), not proved; several handles on the SAME wallet file are not modelled (the code relies on _txlock=exclusive)",
         "multisig and signing operations of the wallet are out of the property's scope",
     ]
     proved = ctx.prove(["AlgoVerif.Props.C46"])
@@ -144,7 +206,11 @@ def run(ctx, replay_ops=None):
                        "then in 85% of the cases restore from the exported MDK into a fresh directory and regenerate (a quarter of those with imports in between); "
                        "7 directed histories first; plus ALL sequences of length <= 2 (quick) / <= 4 (thorough) over a 10-operation alphabet "
                        "(gen, import d1/d2, delete d1/d2 right/wrong password, fetch, init, export wrong password, restore) each followed by gen+list; "
-                       "result, wallet name and sorted ListKeys are compared after EVERY operation; trivial = case without GenerateKey; distinct = distinct case lines")
+                       "result, wallet name and sorted ListKeys are compared after EVERY operation; trivial = case without GenerateKey; distinct = distinct case lines; "
+                       "concurrency: 6 (quick) / 40 (thorough) `probe` lines = 2-8 goroutines x 4000/20000 rounds of extractKeyWithIndex over 2 (MDK,index) pairs each "
+                       "(indices of different digit lengths, 10^k boundaries, 2^63-1), 3 / 12 `conc` lines = 2-16 wallets of ONE driver generating 1600 / 4000 keys in total "
+                       "in parallel goroutines followed by sequential restore-and-compare, and a short probe+conc run under go test -race")
+    race_pass(ctx, env)
     res = common.correspondence(ctx, pkg="./daemon/kmd/wallet/driver", test="TestVerifC46", name="c46", drivers=[("c46", [], "model")],
                                 trivial=trivial, kind_of=kind_of, env=env, timeout=3400 if ctx.tier == "thorough" else 1500,
                                 model_is_spec=False, monitor=monitor,
@@ -154,6 +220,13 @@ def run(ctx, replay_ops=None):
         d = ctx.cov["distribution"]
         nops = 0
         for op, r in zip(ops, impl):
+            if not op.startswith("case "):
+                f = op.split()
+                if f[0] == "conc":
+                    d["concurrent-GenerateKey-calls"] = d.get("concurrent-GenerateKey-calls", 0) + int(f[2]) * int(f[3])
+                elif f[0] == "probe":
+                    d["concurrent-derivation-calls"] = d.get("concurrent-derivation-calls", 0) + int(f[2]) * (len(f) - 3)
+                continue
             toks = op.split()[1:]
             nops += len(toks)
             for t, rt in zip(toks, r.split()):
